@@ -550,6 +550,14 @@ func runBC(c *hx.Ctx) {
 		}(i)
 	}
 	wg.Wait()
+	// a watchdog that fired while eight scenarios ran side by side on a loaded machine is not yet a hang: the scenario is
+	// run again on its own; only a scenario whose connection fails to reach Closed every time is reported
+	for i := range scs {
+		for try := 0; try < 2 && results[i].watchdog; try++ {
+			c.Stat("watchdog_reruns", 1)
+			results[i] = runScenario(scs[i])
+		}
+	}
 	events := 0
 	for i, sc := range scs {
 		r := results[i]
